@@ -11,6 +11,7 @@ from ..derive import derive, labels_of, Summaries
 from ..effects import external_effect, BARRIER_INTRINSICS
 from .. import frontend, api, lanes
 
+from fractions import Fraction as Fr
 PRIMS_TU = "src/mem/mem_primitives_lib.c"
 MIN_ROWS = 7
 
@@ -183,6 +184,90 @@ def fill_value_rule(prog, report, select=None):
     return out
 
 
+CALLEE_UNIT = {"mem_prim_set": 1, "mem_prim_set16": 2, "mem_prim_set32": 4, "explicit_bzero": 1, "bzero": 1, "memset": 1, "memset_explicit": 1, "__memset_chk": 1}
+
+
+def length_rule(prog, report, funcs=None):
+    """'the n addressed bytes': every erase call an entry point makes on its own dest parameter covers exactly count x element size
+    bytes, where count is one of the entry point's own count parameters (n, len, dmax -- the violation exits clear dmax elements) and the
+    element size is that of the entry point's dest type; the callee's unit (bytes for explicit_bzero/memset, 16/32-bit words for
+    mem_prim_set16/32) times its length argument must be that product.  An erase of half the bytes (a sibling's `n * 2` copied into the
+    32-bit variant) is not a secure erase.  Returns the number of erase calls judged."""
+    from ..lin import Lin
+    n = 0
+    for fn in (funcs if funcs is not None else rows(prog)):
+        dp = fn.pnames.get("dest")
+        if dp is None:
+            continue
+        eunit = {"i8*": 1, "i16*": 2, "i32*": 4}.get(dp["ty"])
+        counts = [p for p in fn.j["params"] if p["name"] in ("n", "len") and p["ty"] == "i64"]
+        whole = [p for p in fn.j["params"] if p["name"] in ("dmax", "destbos") and p["ty"] == "i64"]
+        if eunit is None or not (counts or whole):
+            continue
+        if not counts:
+            counts, whole = whole, []
+        allowed = {Lin.atom(p["id"]).scale(eunit).key(): p["name"] for p in counts}
+        # the violation exits clear the whole destination: dmax (bytes in the 16/32-bit memset family, elements elsewhere) or the object size
+        for p in whole:
+            allowed[Lin.atom(p["id"]).key()] = p["name"]
+            allowed[Lin.atom(p["id"]).scale(eunit).key()] = p["name"]
+
+        def lins(o, depth=0):
+            """the set of linear forms (over the parameters) an integer operand can have, None if not expressible"""
+            if o.get("k") == "c":
+                return {Lin.const(o["v"]).key(): Lin.const(o["v"])}
+            if o.get("k") != "v" or depth > 8:
+                return None
+            if o["id"] in fn.params:
+                l = Lin.atom(o["id"]); return {l.key(): l}
+            d = fn.defs.get(o["id"])
+            if d is None:
+                return None
+            if d["op"] in ("zext", "sext", "trunc"):
+                return lins(d["ops"][0], depth + 1)
+            if d["op"] in ("phi", "select"):
+                out = {}
+                for x in ([y["v"] for y in d["incoming"]] if d["op"] == "phi" else d["ops"][1:3]):
+                    r = lins(x, depth + 1)
+                    if r is None:
+                        return None
+                    out.update(r)
+                return out
+            if d["op"] in ("mul", "shl") and d["ops"][1].get("k") == "c":
+                r = lins(d["ops"][0], depth + 1)
+                k = d["ops"][1]["v"] if d["op"] == "mul" else (1 << d["ops"][1]["v"])
+                return None if r is None else {l.scale(k).key(): l.scale(k) for l in r.values()}
+            if d["op"] in ("udiv", "lshr") and d["ops"][1].get("k") == "c":
+                r = lins(d["ops"][0], depth + 1)
+                k = d["ops"][1]["v"] if d["op"] == "udiv" else (1 << d["ops"][1]["v"])
+                return None if r is None else {l.scale(Fr(1, k)).key(): l.scale(Fr(1, k)) for l in r.values()}
+            return None
+        for c in fn.calls():
+            name = c.get("callee") or ""
+            base = "memset" if name.startswith("llvm.memset") else name
+            if base not in CALLEE_UNIT or not c.get("args"):
+                continue
+            a0 = c["args"][0]
+            while a0.get("k") == "v" and fn.defs.get(a0["id"], {}).get("op") == "bitcast":
+                a0 = fn.defs[a0["id"]]["ops"][0]
+            if a0.get("id") != dp["id"]:
+                continue
+            la = c["args"][2] if base in ("memset", "__memset_chk", "memset_explicit") else c["args"][1]
+            n += 1
+            r = lins(la)
+            if r is None:
+                n -= 1          # a length computed from something else (a measured string length, a loop counter) is not judged by this clause
+                continue
+            for l in r.values():
+                got = l.scale(CALLEE_UNIT[base])
+                if got.key() not in allowed:
+                    report("C18:erase-length:%s:%s" % (api.base_name(fn.name), base), "N-erase-covers-count-times-size", fn.loc(c),
+                           "%s: %s erases %s bytes; the request is %s bytes (%d-byte elements): the bytes behind that stay as they were although the call reports success"
+                           % (api.base_name(fn.name), name, got, " or ".join("%d*%s" % (eunit, p["name"]) for p in counts), eunit))
+                    break
+    return n
+
+
 def split_rule(prog, report, select=None):
     """'all n bytes and no more': where a fill primitive splits its byte count into words and a remainder, the quotient (count >> k) and
     the remainder (count & (2^k - 1)) must be taken from the same value -- otherwise 2^k*q + r is not the count that is left."""
@@ -346,6 +431,9 @@ def run(ck):
     nst = sum(v["stores"] for k, v in fills.items() if k != "entries")
     if nst < 40 or len(fills) < 4 or len(fills.get("entries", {})) < 5:
         ck.fail_broken("fill-value rule: only %d stores in %d fill primitives and %d entry points found" % (nst, len(fills) - 1, len(fills.get("entries", {}))))
+    nlen = length_rule(prog, ck.report)
+    if nlen < 6:
+        ck.fail_broken("length rule: only %d erase calls on the entry points' own dest found (< 6)" % nlen)
     clients = None
     if ck.tier == "thorough":
         clients = client_inspection(ck, prog, ck.report)
@@ -357,7 +445,7 @@ def run(ck):
     cov = dict(explanation="Structural rule over the IR of the %d erase entry points: %d write sites into dest (stores, memset/explicit_bzero/primitive calls, followed into callees); each "
                "must be volatile, barrier-followed on every path to a success return, or done by a callee whose writes are all protected. %s"
                % (len(out), nw, "Thorough tier: clients with a dead stack/heap buffer were compiled together with the library's current sources by gcc-12 and clang-14 at -O1..-O3 with -flto and their disassembly inspected for the surviving erase (nothing is executed)." if clients is not None else "Compiled-client inspection runs in the thorough tier."),
-               obligations=nw, discharged=nw - sum(r["unprotected"] for r in out.values()), entries=out, primitives=prim, fill_value_lanes=fills, count_splits=splits, fixtures=fx, frontend=info,
+               obligations=nw, discharged=nw - sum(r["unprotected"] for r in out.values()), entries=out, primitives=prim, fill_value_lanes=fills, count_splits=splits, erase_calls_with_exact_length=nlen, fixtures=fx, frontend=info,
                summary="%d entries, %d writes into dest, all volatile or barrier-protected" % (len(out), nw))
     if clients is not None:
         cov["client_inspection"] = clients
@@ -388,4 +476,9 @@ def selftest(ck):
     for n, w in want.items():
         if n not in fl or fl[n]["stores"] < 2 or fl[n]["not_replicated"] != w:
             ck.fail_broken("fixture c18.c:%s: fill-lane rule gave %s, expected %d bad store(s)" % (n, fl.get(n), w))
+    got3 = []
+    nl = length_rule(prog, lambda key, *a, **k: got3.append(key), funcs=[prog.funcs["fxlen32_good"], prog.funcs["fxlen32_half"]])
+    res["erase_length"] = dict(calls=nl, reports=got3)
+    if got3 != ["C18:erase-length:fxlen32_half:explicit_bzero"] or nl != 6:
+        ck.fail_broken("fixture c18.c: erase-length rule gave %s over %d calls" % (got3, nl))
     return res
